@@ -3,6 +3,7 @@
   Theorems about the transition systems of `Hidi.Fan`.
 -/
 import HidiProofs.FanLemmas
+import HidiProofs.FanLive
 import Hidi.Gen.Tables
 namespace Hidi.Props.C15
 open Hidi Hidi.Fan Hidi.FanLemmas Hidi.EngineSim
@@ -27,6 +28,35 @@ theorem C15_despawn_blocks_unguarded :
 theorem C15_despawn_completes_on_wedge :
     let s := settleAll (run (init true 1) wedge)
     s.inflight = none ∧ enabled s (.despawn 0) = true ∧ (step s (.despawn 0)).pendingDespawn = [] := by decide
+
+
+/-! ### removal always completes -/
+
+open Hidi.FanLive in
+/-- **removal always completes, even if the removed consumer has stopped reading**: in every reachable state of the
+    guarded fan-out in which `DespawnOutput(id)` is pending there is a schedule of at most `2·|outputs| + 5` steps, each
+    enabled when it is taken, consisting only of steps of the dispatcher (send / unlock), of the removing caller (the
+    despawn itself) and of receives by consumers that have NOT been told to leave — never a receive by `id`'s consumer or
+    by any other output under removal — after which the call has returned.  (`helper_progress` is the stronger form: the
+    measure decreases with every such step, whichever reachable state it is taken from.) -/
+theorem C15_despawn_completes (cap : Nat) (hc : 0 < cap) (steps : List Step) (id : Nat) :
+    let s := run (init true cap) steps
+    id ∈ s.pendingDespawn →
+    ∃ sched : List Step, sched.length ≤ 2 * s.outputs.length + 5 ∧ GoodSchedule id s sched ∧
+      id ∉ (run s sched).pendingDespawn := by
+  intro s hp
+  have hi : LInv s := run_linv steps _ (linv_init true cap)
+  have hinv : Inv s := run_inv steps _ (inv_init true cap)
+  have hcap : 0 < s.cap := by rw [show s.cap = cap from run_cap steps _]; exact hc
+  have hg : s.guarded = true := run_guarded steps _
+  refine ⟨driveSteps id (2 * s.outputs.length + 5) s, driveSteps_length _ _ _, driveSteps_good id _ s hi hg hcap, ?_⟩
+  rw [drive_is_run id _ s hi hcap]
+  exact drive_completes id _ s hi hcap (measure_le s hinv)
+
+/-- non-vacuity: the wedge schedule reaches a state with the removal pending and the dispatcher blocked on the very
+    output being removed; the schedule of the theorem is `send` (skipping the leaving output), `unlock`, `despawn` -/
+example : let s := run (init true 1) wedge
+    0 ∈ s.pendingDespawn ∧ Hidi.FanLive.driveSteps 0 7 s = [.send, .unlock, .despawn 0] := by decide
 
 /-! ### exactly once, in order, whatever the schedule -/
 
